@@ -72,6 +72,9 @@ META = {
         "{Inv, @, Act, Act4, Adj, AdjT, matrix()} is covered unconditionally (gradient_exact_algebraic, leaf_gradient_exact_algebraic)",
         "sim3/Sim3 Exp and Log backward use the documented truncated series: oracle comparison only where "
         "30*|ad xi|^6/5040*e^|ad xi| <= 1e-2, otherwise correspondence with the (equally truncated) model only",
+        "pass 10: on every SELECTED closed-form branch (so3_Jl, so3_Jl_inv, calcQ, rxso3_Ws, SO3_Log) the model's denominators are proved "
+        "non-zero (selected_branch_well_defined_partial, SO3_Log_selected_branch_well_defined_partial); the Jinvp kernel contract has "
+        "witnesses for SO3 and RxSO3 only (none for SE3 / Sim3)",
         "NO NaN / Inf (incl. identity / zero vector) is decided by the harness only: the code evaluates both branches and masks "
         "(idx * nan_to_num(closed form)), which the model's `if` does not represent; the Lean statements about these points say which "
         "linear maps the backward passes are (true for any coefficients) and that the model selects the Taylor branches",
